@@ -33,6 +33,10 @@ ASSUMPTIONS = [
     "read_yaml is modelled as repaired by fixes/C19-read-yaml-stream.diff (the original isinstance(stream, typing.TextIO) refused every "
     "real stream: C01/valid-rejected-stream) and fixes/C19-read-yaml-text.diff (a str with a line break is a YAML text even without ': ')",
     "non-ASCII digits / spaces in the string form and exponents beyond binary64 range are not generated",
+    "object reuse: that an argument object is left untouched is not demanded as such (the property does not say it): every further "
+    "construction on the same objects is judged against the model on the objects as the user made them (DieInput.session), and when "
+    "the harness sees an argument modified it constructs twice more (with / without the netlist); an open stream is rewound "
+    "(seek(0)) by the harness between uses, a stream found closed is opened again",
 ]
 
 TAGS = ["#"] * 10 + ["BRAM", "DSP", "reg1", "_x", "a_9", "Z", "BRAM", "DSP",
@@ -947,7 +951,8 @@ def oracle(case, obs):
         if why:
             if not steps:
                 return why
-            seq = ", ".join("Die(d, netlist)" if x.get("step", "n") == "n" else "Die(d)" for x in (steps + [obs])[:k + 1])
+            net = bool(case.get("fixed") or case.get("hard"))
+            seq = ", ".join("Die(d, netlist)" if net and x.get("step", "n") == "n" else "Die(d)" for x in (steps + [obs])[:k + 1])
             note = " [an argument object was modified by a construction]" if obs.get("mutated") else ""
             return f"construction {k + 1} of {seq} on the same objects: {why}{note}"
     return None
@@ -1107,8 +1112,10 @@ def run(ctx, out, replay=None):
                 "0.01, die up to 1e5; direct oracle only), malformed (one defect injected: description, netlist rectangles, or the text "
                 "itself), badstring ('<W>x<H>' broken in one place), sd (string_die called on random strings); input forms dict / flat "
                 "single region / '<W>x<H>' string (all float() spellings) / YAML text (4 layouts, number spellings, comments, > 4096 "
-                "characters) / file name / open stream, each with and without netlist; a fifth of the cases after earlier constructions "
-                "in the same process; non-trivial = at least two regions or a refused input; distinct by canonical hash")
+                "characters) / file name / open stream, each with and without netlist; a third of the cases are histories on the SAME "
+                "objects (the description dict / str / file / rewound stream and the Netlist object handed to 2-4 constructions, with "
+                "and without the netlist in any order, every construction judged; two more constructions when an argument was "
+                "modified) or follow a bare die built with the same netlist; non-trivial = at least two regions or a refused input; distinct by canonical hash")
     cases = []
     if replay and "case" in replay:
         cases.append(fr.unjson(replay["case"]))
